@@ -224,6 +224,7 @@ func (c *checkCtx) check() int {
 			}
 			targets = sel
 		}
+		targets = append(targets, multiTargets()...)
 		for i := range targets {
 			targets[i].Repeats = reps
 		}
